@@ -225,6 +225,26 @@ def Encoder_setStreamId_obj (s : Encoder_St) (a_newStreamId : Nat) : Option (Enc
 
 def Encoder_untranslated : List (String × String) := [("ASAM::CMP::Encoder::encode", "type ForwardPtrIterator")]
 
+/-- `ASAM::CMP::Encoder::encode` (member template over the iterator range `[begin, end)`): the range is the list of the packets it designates -/
+def Encoder_encode_range_obj (fuel : Nat) (s : Encoder_St) (r_begin_end : List PktIn) (a_dataContext_minBytesPerMessage : Nat) (a_dataContext_maxBytesPerMessage : Nat) : Option (Encoder_St × List Bytes) := do
+  let (s, _) ← Encoder_init_obj s a_dataContext_minBytesPerMessage a_dataContext_maxBytesPerMessage
+  let s ← r_begin_end.foldlM (fun s x => do
+    let (s, _) ← Encoder_putPacket_obj fuel s x
+    pure s) s
+  let (s, t1) ← Encoder_getEncodedData_obj s 
+  pure (s, t1)
+
+/-- `ASAM::CMP::Encoder::encode` (member template over the iterator range `[begin, end)` of `shared_ptr<Packet>`, dereferenced unchecked): the range is the list of the packets it designates -/
+def Encoder_encode_ptrRange_obj (fuel : Nat) (s : Encoder_St) (r_begin_end : List PktIn) (a_dataContext_minBytesPerMessage : Nat) (a_dataContext_maxBytesPerMessage : Nat) : Option (Encoder_St × List Bytes) := do
+  let (s, _) ← Encoder_init_obj s a_dataContext_minBytesPerMessage a_dataContext_maxBytesPerMessage
+  let s ← r_begin_end.foldlM (fun s x => do
+    let (s, _) ← Encoder_putPacket_obj fuel s x
+    pure s) s
+  let (s, t1) ← Encoder_getEncodedData_obj s 
+  pure (s, t1)
+
+def Encoder_templates_untranslated : List (String × String) := []
+
 /-- state of `ASAM::CMP::Packet`: one field per data member -/
 structure Packet_St where
   f_version : Nat
